@@ -700,15 +700,36 @@ fn build_default_for_enum(
 
     let mut wcb = WhereClauseBuilder::new(&item.generics);
     let mut use_bounds = e.push_bounds_to_with(hattrs, kind, &mut wcb);
+    // wrong markers on the variants are reported also when a value on the type decides the result
+    let vs: Vec<_> = variants
+        .iter()
+        .filter_map(|v| Some((v, v.hattrs.default.as_ref()?)))
+        .collect();
+    if vs.len() > 1 {
+        let names: Vec<String> = vs
+            .iter()
+            .map(|variant| variant.0.variant.ident.to_string())
+            .collect();
+
+        bail!(
+            vs[0].0.variant.span(),
+            "there are multiple variants with `#[default(...)]` ({})",
+            names.join(", "),
+        )
+    }
+    for (_, a) in &vs {
+        if let Some(value) = &a.value {
+            bail!(
+                value.span(),
+                "`#[default(...)]` on a variant cannot specify a default value"
+            )
+        }
+    }
     let value = if let Some(value) = hattrs.default_value(&parse_quote!(Self)) {
         value
     } else {
-        let vs: Vec<_> = variants
-            .iter()
-            .filter_map(|v| Some((v, v.hattrs.default.as_ref()?)))
-            .collect();
         let a_default = HelperAttributeForDefault::default();
-        let (v, a) = match vs.len() {
+        let (v, _) = match vs.len() {
             0 => {
                 if variants.len() == 1 {
                     (&variants[0], &a_default)
@@ -716,27 +737,9 @@ fn build_default_for_enum(
                     bail!(_, "variant with `#[default(...)]` does not exist.")
                 }
             }
-            1 => vs[0],
-            _ => {
-                let names: Vec<String> = vs
-                    .iter()
-                    .map(|variant| variant.0.variant.ident.to_string())
-                    .collect();
-
-                bail!(
-                    vs[0].0.variant.span(),
-                    "there are multiple variants with `#[default(...)]` ({})",
-                    names.join(", "),
-                )
-            }
+            _ => vs[0],
         };
         use_bounds = v.hattrs.push_bounds_to(use_bounds, kind, &mut wcb);
-        if let Some(value) = &a.value {
-            bail!(
-                value.span(),
-                "`#[default(...)]` on a variant cannot specify a default value"
-            )
-        }
         let ctor_args =
             build_default_ctor_args(&v.variant.fields, &v.fields, use_bounds, &mut wcb)?;
         let variant_ident = &v.variant.ident;
